@@ -42,6 +42,80 @@ std::vector<unsigned> delimiters(const SyntaxNodeList* l, size_t n)
     return d;
 }
 
+// ---- the kind-specific down-casts (C14): the class a node dispatches to (its visitX), against every asY() of SyntaxNode
+struct ClassNamer : SyntaxVisitor {
+    using SyntaxVisitor::SyntaxVisitor;
+    const char* name = nullptr;
+#define NODE_CLASS(N, B, A)
+#define NODE_CAST(N)
+#define NODE_VISIT(N) Action visit##N(const N##Syntax*) override { name = #N; return Action::Skip; }
+#include "node_classes.inc"
+#undef NODE_CLASS
+#undef NODE_CAST
+#undef NODE_VISIT
+};
+
+struct ClassInfo { const char* name; const char* base; int arity; };
+const ClassInfo kClasses[] = {
+#define NODE_CLASS(N, B, A) { #N, #B, A },
+#define NODE_CAST(N)
+#define NODE_VISIT(N)
+#include "node_classes.inc"
+#undef NODE_CLASS
+#undef NODE_CAST
+#undef NODE_VISIT
+};
+
+// ancestors (reflexive) of every class, computed once
+const std::unordered_map<std::string, std::vector<std::string>>& ancestorTable()
+{
+    static std::unordered_map<std::string, std::vector<std::string>> t;
+    if (t.empty()) {
+        for (auto& ci : kClasses) {
+            std::vector<std::string> a;
+            std::string c = ci.name;
+            for (int guard = 0; guard < 64 && c != "SyntaxNode"; ++guard) {
+                a.push_back(c);
+                bool found = false;
+                for (auto& cj : kClasses) if (c == cj.name) { c = cj.base; found = true; break; }
+                if (!found) break;
+            }
+            t.emplace(ci.name, std::move(a));
+        }
+    }
+    return t;
+}
+
+bool derivesFrom(const std::string& cls, const char* anc)
+{
+    auto it = ancestorTable().find(cls);
+    if (it == ancestorTable().end()) return false;
+    for (auto& a : it->second) if (a == anc) return true;
+    return false;
+}
+
+// returns "" when every down-cast of `n` agrees with the class it dispatches to (and a one-kind class carries its own kind)
+std::string downcastProblem(const SyntaxTree* tree, const SyntaxNode* n)
+{
+    ClassNamer cn(tree);
+    n->dispatchVisit(&cn);
+    if (!cn.name) return std::string("no-visit:") + kindStr(n->kind());
+    std::string cls = cn.name;
+    for (auto& ci : kClasses)
+        if (cls == ci.name && ci.arity == 1 && cls != kindStr(n->kind()))
+            return "kind:" + cls + "/" + kindStr(n->kind());
+#define NODE_CLASS(N, B, A)
+#define NODE_VISIT(N)
+#define NODE_CAST(N) { const N##Syntax* p = n->as##N(); bool want = derivesFrom(cls, #N); \
+        if ((p != nullptr) != want) return std::string("as") + #N + (want ? "=null:" : "!=null:") + cls; \
+        if (p && static_cast<const SyntaxNode*>(p) != n) return std::string("as") + #N + "-other-object:" + cls; }
+#include "node_classes.inc"
+#undef NODE_CLASS
+#undef NODE_CAST
+#undef NODE_VISIT
+    return "";
+}
+
 struct Dumper {
     const SyntaxTree* tree;
     std::map<unsigned, unsigned> idxByByteOffset;
@@ -141,7 +215,23 @@ static int treeMain(const std::vector<std::string>&, std::istream& in, std::ostr
         d.nodeWithId(tree->rootNode());
         size_t foreign = 0;
         for (auto& kv : counter.count) if (!d.id.count(kv.first)) ++foreign;
-        out << tree->tokenCount() << d.out << " | foreign=" << foreign << " | " << diagIdsOf(tree.get()) << "\n";
+        size_t dcBad = 0;
+        std::string dcFirst;
+        std::map<std::string, std::string> kindClass;      // kind -> class it dispatches to (distinct pairs of this tree)
+        for (auto& kv : d.id) {
+            std::string pr = downcastProblem(tree.get(), kv.first);
+            if (!pr.empty()) { if (!dcBad) dcFirst = pr; ++dcBad; }
+            ClassNamer cn(tree.get());
+            kv.first->dispatchVisit(&cn);
+            std::string k = kindStr(kv.first->kind());
+            auto it = kindClass.find(k);
+            std::string c = cn.name ? cn.name : "?";
+            if (it == kindClass.end()) kindClass.emplace(k, c);
+            else if (it->second != c) it->second += "+" + c;
+        }
+        std::string kc;
+        for (auto& e : kindClass) kc += (kc.empty() ? "" : ",") + e.first + ":" + e.second;
+        out << tree->tokenCount() << d.out << " | foreign=" << foreign << " dc=" << dcBad << (dcBad ? ":" + dcFirst : std::string()) << " kc=" << (kc.empty() ? "-" : kc) << " | " << diagIdsOf(tree.get()) << "\n";
     }
     return 0;
 }
